@@ -281,6 +281,11 @@ def run(model, rep, tier):
     okk = len(etn) == 1 and bool(marks) and cfg.postdominated_by_set(etn[0].id, marks, exits=[cfg.exit.id, cfg.rexit.id])
     rep.check(okk, "R-10.4", en.qualname, where(en, en.node), "_ended is set on every exit of _end (normal and exceptional)",
               "_end can leave without setting _ended (a failed commit leaves a usable, half-applied transaction)", stmt="ended-in-finally")
+    cfg_n = CFG(en.node, implicit_exc=False)
+    etn_n = [n.id for (n, c) in calls_with_nodes(cfg_n) if src(c.func) == "self._end_transaction"]
+    rep.check(bool(etn_n) and cfg_n.dominated_by_set(cfg_n.exit.id, etn_n), "R-10.4", en.qualname, where(en, en.node), "_end always hands the transaction back to its manager (_end_transaction on every path)",
+              "_end can finish without calling _end_transaction (e.g. skipped for a rolled-back reader): the manager never learns that the transaction ended - a versioned zone keeps the reader registered "
+              "(its version pinned for ever) or the write slot taken", stmt="end-transaction-always")
     chk = [n.id for (n, c) in calls_with_nodes(cfg) if src(c.func) == "self._check_ended"]
     rep.check(bool(etn) and cfg.dominated_by_set(etn[0].id, chk), "R-10.4", en.qualname, where(en, en.node), "_end refuses a second end",
               "_end does not check for a previous end (double commit)", stmt="end-once")
@@ -603,6 +608,8 @@ def _for_node_kinds(model, f, cfg, rd, d) -> set:
 
 
 WITNESSES = [
+    {"id": "c10-end-skips-manager-for-reader-rollback", "rule": "R-10.4", "file": "dns/transaction.py", "expect": "fires",
+     "old": "        try:\n            self._end_transaction(commit)\n        finally:\n            self._ended = True", "new": "        try:\n            if commit or not self.read_only:\n                self._end_transaction(commit)\n        finally:\n            self._ended = True"},
     {"id": "c10-delete-exact-tests-disjointness", "rule": "R-10.12", "file": "dns/transaction.py", "expect": "fires",
      "old": "                    if exact:\n                        intersection = existing.intersection(rdataset)\n                        if intersection != rdataset:\n                            raise DeleteNotExact(f\"{method}: missing rdatas\")",
      "new": "                    if exact and existing.isdisjoint(rdataset):\n                        raise DeleteNotExact(f\"{method}: missing rdatas\")"},
